@@ -415,7 +415,15 @@ class Unit:
             self.rewrite_log.append(dict(rule='R-region', at=f"{file}:{rf.line_of(bo + ia)}-{rf.line_of(bo + ib)}",
                                          what=f"statements of {fn.name} between {ra!r} and {rb!r} emitted as `{rsig}`; the rest of the function is dropped"))
             sig = re.sub(r'\bfn\s+\w+', 'fn ' + emit_name, rsig, count=1) + ' '
-            body = '{\n' + full[ia:ib] + (rtail or '') + '\n}'
+            if rtail == '@arm':
+                # the region is the block of one match arm (`PATTERN => { .. }`): the closing brace of the arm's block, which
+                # is the last token before the end anchor, closes the new function instead
+                reg = full[ia:ib].rstrip()
+                if not reg.endswith('}'):
+                    raise ExtractError(f"{file}: {fn.name}: region of a match arm does not end in a closing brace")
+                body = '{\n' + reg[:-1] + '\n}'
+            else:
+                body = '{\n' + full[ia:ib] + (rtail or '') + '\n}'
             body_line = rf.line_of(bo + ia) - 1
         # ---------------- signature
         ssl = Slice(sig, file, line0, self.rewrite_log)
